@@ -1,6 +1,7 @@
 package c19
 
 import (
+	"net/netip"
 	"testing"
 
 	"verif/webfix"
@@ -114,5 +115,18 @@ func TestReg_c19_href_amp(t *testing.T) {
 	single := &torSpec{kind: "single", seed: 1, length: 10, name: q.mk(kName, "a&gt.bin", "")}
 	q.assignBenign()
 	sc = &scenario{pool: q.pool, tors: []*torSpec{single}}
+	checkHTML(t, sc, sc.pages(noSubdir))
+}
+
+// The address of a known peer is printed as it is; netip accepts any text as
+// the zone of an IPv6 address ("2001:db8::1%<script>…"), and a tracker's
+// dictionary-form reply gives addresses as text.
+func TestReg_c19_known_peer_zone(t *testing.T) {
+	webfix.KillAll()
+	var p handPool
+	ts := &torSpec{kind: "single", seed: 1, length: 100, name: p.mk(kName, "n", "")}
+	ts.knowns = []knownSpec{{addr: netip.MustParseAddrPort("[2001:db8::1]:6881"), zone: p.mk(kText, "<script>alert(1)</script>", ""), version: p.mk(kText, "v", "")}}
+	p.assignBenign()
+	sc := &scenario{pool: p.pool, tors: []*torSpec{ts}}
 	checkHTML(t, sc, sc.pages(noSubdir))
 }
